@@ -240,4 +240,14 @@ mod native {
         }
         assert!(crate::BDecoder::from_array(b"0:").is_ok() && crate::BDecoder::from_array(b"1:a").is_ok());
     }
+    // C16 / C17: "never panics": a declared length far beyond the input (also beyond usize) is an error, not an allocation
+    #[test]
+    fn native_c16_huge_declared_length_is_an_error() {
+        for input in [&b"18446744073709551615:a"[..], &b"9999999999999999999:"[..], &b"99999999999999999999999:x"[..], &b"4294967296:abc"[..]] {
+            let r = std::panic::catch_unwind(|| crate::BDecoder::from_array(input));
+            assert!(matches!(r, Ok(Err(_))), "huge declared length not rejected cleanly: {:?}", std::str::from_utf8(input));
+            let m = std::panic::catch_unwind(|| crate::Metainfo::from_bencode(input));
+            assert!(matches!(m, Ok(Err(_))), "metainfo parser panicked / accepted: {:?}", std::str::from_utf8(input));
+        }
+    }
 }
